@@ -381,6 +381,10 @@ pub assume_specification<'a, B> [std::borrow::Cow::<'_, B>::into_owned] (c: std:
 pub proof fn axiom_cow_owned_str(c: Cow<'_, str>)
     ensures cow_owned::<str>(c)@ == cow_chars(c),
 {}
+#[verifier::external_body]
+pub proof fn axiom_cow_owned_str_all()
+    ensures forall|c: Cow<'_, str>| (#[trigger] cow_owned::<str>(c))@ == cow_chars(c),
+{}
 pub struct Encoding;
 pub struct Utf16LeStandIn;
 pub const UTF_16LE: Utf16LeStandIn = Utf16LeStandIn;
@@ -531,6 +535,36 @@ pub open spec fn rk_num30(raw: int) -> int { raw / 4 }
 pub open spec fn rk_int(raw: int) -> int { if rk_num30(raw) >= 0x2000_0000 { rk_num30(raw) - 0x4000_0000 } else { rk_num30(raw) } }
 pub open spec fn rk_float_bits(raw: int) -> int { rk_num30(raw) * 0x4_0000_0000 }
 
+pub open spec fn signed32(v: int) -> int { if v >= 0x8000_0000 { v - 0x1_0000_0000 } else { v } }
+proof fn lemma_shr2(x: i32)
+    ensures (x >> 2) as int == (x as int) / 4,
+{
+    assert(x >> 2 == x / 4) by (bit_vector);
+}
+/// the flag tests and the masking `buf[8] &= 0xFC` of the RK arm, in terms of the RkNumber fields
+proof fn lemma_rk(p: Seq<u8>, q: Seq<u8>)
+    requires p.len() >= 12, q == p.update(8, p[8] & 0xFC),
+    ensures
+        ((p[8] & 1) != 0) == rk_x100(le32(p.subrange(8, 12))),
+        ((p[8] & 2) != 0) == rk_is_int(le32(p.subrange(8, 12))),
+        le32(q.subrange(8, 12)) == 4 * rk_num30(le32(p.subrange(8, 12))),
+        signed32(le32(q.subrange(8, 12))) / 4 == rk_int(le32(p.subrange(8, 12))),
+        -0x2000_0000 <= rk_int(le32(p.subrange(8, 12))) < 0x2000_0000,
+{
+    let b = p[8];
+    assert(((b & 1) != 0) == (b % 2 == 1)) by (bit_vector);
+    assert(((b & 2) != 0) == ((b / 2) % 2 == 1)) by (bit_vector);
+    assert((b & 0xFC) == b - b % 4) by (bit_vector);
+    let raw = le32(p.subrange(8, 12));
+    let k = p[9] as int + 256 * (p[10] as int) + 65536 * (p[11] as int);
+    assert(p.subrange(8, 12)[0] == p[8] && p.subrange(8, 12)[1] == p[9] && p.subrange(8, 12)[2] == p[10] && p.subrange(8, 12)[3] == p[11]);
+    assert(q.subrange(8, 12)[0] == (b & 0xFC) && q.subrange(8, 12)[1] == p[9] && q.subrange(8, 12)[2] == p[10] && q.subrange(8, 12)[3] == p[11]);
+    assert(raw == b as int + 256 * k);
+    assert(le32(q.subrange(8, 12)) == (b - b % 4) as int + 256 * k);
+    assert(raw / 2 == (b as int) / 2 + 128 * k);
+    assert(raw / 4 == (b as int) / 4 + 64 * k);
+}
+
 /// the cell record kinds of the property: BrtCellRk 2, BrtCellError 3, BrtCellBool 4, BrtCellReal 5, BrtCellSt 6, BrtCellIsst 7,
 /// BrtFmlaString 8, BrtFmlaNum 9, BrtFmlaBool 0xA, BrtFmlaError 0xB   (BrtCellBlank 1 is an empty cell: not reported)
 pub open spec fn is_cell_kind(typ: int) -> bool { 2 <= typ <= 0x0B }
@@ -670,6 +704,9 @@ let verif_out; loop
                         //# C03.value_real
                         assert(val_real_ok(t, p, self.formats@, self.strings@, self.is_1904, value));
                     } else if t == 6 || t == 8 {
+                        axiom_cow_owned_str_all();
+                        assert(p.subrange(8, p.len() as int).subrange(4, 4 + 2 * le32(p.subrange(8, 12))) =~= p.subrange(12, 12 + 2 * le32(p.subrange(8, 12))));
+                        assert(p.subrange(8, p.len() as int)[0] == p[8] && p.subrange(8, p.len() as int)[1] == p[9] && p.subrange(8, p.len() as int)[2] == p[10] && p.subrange(8, p.len() as int)[3] == p[11]);
                         //# C03,C19.value_string
                         assert(val_string_ok(t, p, self.formats@, self.strings@, self.is_1904, value));
                     } else if t == 7 {
@@ -700,6 +737,19 @@ let verif_out; loop
                 ({ let sc = scan(s0, row0); sc is Cell && (sc->typ == 2 || sc->typ == 5 || sc->typ == 9) && cell_wf(sc->typ, sc->payload, self.strings@.len() as int)
                     ==> (verif_out is DateTime <==> is_date_fmt(cell_format_spec(self.formats@, sc->payload))) }),
             decreases self.iter.rem().len(),
+//@@ before /if is_int \{/
+                    proof { if p.len() >= 12 { lemma_rk(p, self.buf@); } }
+//@@ after /let v = \(read_i32[^;]*;/
+                        proof { if p.len() >= 12 { lemma_shr2(signed32(le32(self.buf@.subrange(8, 12))) as i32); } }
+//@@ before /let v = read_f64\(&v\);/
+                        proof {
+                            if p.len() >= 12 {
+                                let q = self.buf@.subrange(8, 12);
+                                assert(v@.subrange(4, 8) =~= q);
+                                assert(le32(v@) == 0);
+                                assert(le64(v@) == 0x1_0000_0000 * le32(q));
+                            }
+                        }
 //@@ before /self\.buf\.clear\(\)/
             let ghost cur = self.iter.rem();
             let ghost row_h = self.row;
